@@ -219,7 +219,22 @@ struct CacheAlloc {
 };
 inline void use_caching_alloc() { mju_user_malloc = CacheAlloc::alloc; mju_user_free = CacheAlloc::release; }
 
+}  // namespace nd
+extern "C" void __asan_set_error_report_callback(void (*)(const char*)) __attribute__((weak));
+namespace nd {
+// under ASan every report becomes a FAIL record of the case in progress (class "asan", report text in the file)
+inline void on_asan_report(const char* report) {
+  if (!g_in_case) return;
+  g_blob = std::string(report).substr(0, 5000) + "\n" + g_blob;
+  std::string r(report);
+  size_t i = r.find("AddressSanitizer: "); std::string kind = i == std::string::npos ? "report" : r.substr(i + 18, r.find(' ', i + 18) - i - 18);
+  size_t j = r.find(" in mj"); std::string where = j == std::string::npos ? "" : r.substr(j + 4, r.find(' ', j + 4) - j - 4);
+  char msg[300]; snprintf(msg, sizeof msg, "AddressSanitizer %s%s%s (full report in the replay file)", kind.c_str(), where.empty() ? "" : " in ", where.c_str());
+  write_fail_file("asan", msg);
+  _exit(10);
+}
 inline void setup(int argc, char** argv, const char* prop) {
+  if (__asan_set_error_report_callback) __asan_set_error_report_callback(on_asan_report);
   mallopt(M_ARENA_MAX, 1);
   mallopt(M_MMAP_THRESHOLD, 1 << 30);
   mallopt(M_TRIM_THRESHOLD, 1 << 30);
